@@ -120,6 +120,9 @@ pub fn run(id: &str, cmd: &str, path: &Path, seed: u64) -> i32 {
                     let c = runner::draw(&c04::mut_case_strategy(), seed, "fuzz-corpus-mutated", i);
                     files.push(c04::apply(&c));
                 }
+                // wasteful-but-valid layouts (long pointer tables designating one block)
+                files.push(c04::duplicate_pointer_message(64, 200, true, seed));
+                files.push(c04::duplicate_pointer_message(1_000, 60, false, seed));
             } else {
                 for i in 0..16 {
                     let v = runner::draw(&c06::small_volume(), seed, "fuzz-corpus-volume", i);
